@@ -27,7 +27,7 @@ MODULE = "Sqfs.Props.C02"
 REQUIRED = ["Sqfs.C02." + t for t in (
     "run_eq_spec", "backlog_independent", "run_ok", "dequeue_never_internal_error", "finish_writes_everything",
     "realised_eq_serial", "schedule_independent", "jobs_independent", "times_depend_only_on_source_date_epoch",
-    "source_date_epoch_default", "run_eq_specPack_partial", "exCodec_ok")]
+    "source_date_epoch_default", "run_eq_specPack_partial", "run_sync_eq_spec", "exCodec_ok")]
 
 NPOLICY = 10
 FL = {"dc": 1, "dh": 2, "df": 4, "dd": 8, "is": 16}
@@ -105,8 +105,8 @@ def files_text(w):
     return "%d %s" % (len(w["files"]), " ".join("%d %s" % (f, hx(d)) for f, d in w["files"])) if w["files"] else "0"
 
 
-def bp_line(w, workers, mb, policy, seed):
-    return ("bp %d %d %d %d %s %d %s" % (workers, mb, policy, seed, wl_text(w), w["chunk"], files_text(w))).strip()
+def bp_line(w, workers, mb, policy, seed, sync=False):
+    return ("%s %d %d %d %d %s %d %s" % ("bps" if sync else "bp", workers, mb, policy, seed, wl_text(w), w["chunk"], files_text(w))).strip()
 
 
 def model_line(w, mb, op="run"):
@@ -191,20 +191,29 @@ def unit_level(ctx, stats):
             if policy in (3, 4) and workers < 2:
                 workers = 2
             mb = rng.choice([0, 1, 3, 3, 4, 5, 6, 8, 10, 16, 40])
-            lines.append(bp_line(w, workers, mb, policy, rng.randrange(1 << 30)))
+            lines.append(bp_line(w, workers, mb, policy, rng.randrange(1 << 30), sync=(rng.random() < 0.25)))
             meta.append((wi, workers, mb, policy))
     mbs_ref = [0, 3, 5, 40]
     ref_lines = [bp_line(w, 1, mb, 0, 0) for w in wls for mb in mbs_ref]
     mod_lines = [model_line(w, mb) for w in wls for mb in mbs_ref]
     spec_lines = [model_line(w, 0, "spec") for w in wls]
     state_lines = [model_line(w, mb, "state") for w in wls for mb in mbs_ref]
+    # the same with a `sync` before every `end_file` (serial build, max_backlog 3 and 40)
+    mbs_sync = [3, 40]
+    sref_lines = [bp_line(w, 1, mb, 0, 0, sync=True) for w in wls for mb in mbs_sync]
+    smod_lines = [model_line(w, mb, "runs") for w in wls for mb in mbs_sync]
+    sstate_lines = [model_line(w, mb, "states") for w in wls for mb in mbs_sync]
     t0 = time.time()
     impl, problems = run_parallel(ctx, [str(h)], lines, 1500)
     ref, rproblems = run_parallel(ctx, [str(hs)], ref_lines, 900, pin=False)
+    sref, srproblems = run_parallel(ctx, [str(hs)], sref_lines, 900, pin=False)
+    rproblems = rproblems + srproblems
     t1 = time.time()
     mod = model_run(ctx, mod_lines)
     spec = model_run(ctx, spec_lines)
     state = model_run(ctx, state_lines)
+    smod = model_run(ctx, smod_lines)
+    sstate = model_run(ctx, sstate_lines)
     t2 = time.time()
     for pb in (problems + rproblems)[:3]:
         ctx.violation("crash:" + vlib.sha(pb["script"])[:12],
@@ -253,6 +262,27 @@ def unit_level(ctx, stats):
                                           mbs_ref[k], tr.get("sub"), tr.get("maxq"), state[wi * nref + k]),
                                       {"kind": "unit-state", "model_line": state_lines[wi * nref + k], "harness_line": ref_lines[wi * nref + k],
                                        "model": state[wi * nref + k], "real": ref[wi * nref + k][-300:]}, found_input=False)
+        # (a3) sync while the file is open: output and bookkeeping
+        for k in range(len(mbs_sync)):
+            i = wi * len(mbs_sync) + k
+            rc, tr = split_result(sref[i])
+            st = dict(kv.split("=") for kv in sstate[i].split()[1:]) if sstate[i].startswith("ok ") else {}
+            if rc == "<no output>":
+                continue
+            if rc != want:
+                bad += 1
+                if bad <= 3:
+                    ctx.violation("serial-sync:" + vlib.sha(sref_lines[i])[:12],
+                                  "serial-pool build: output changes when sync() is called before end_file (max_backlog=%d)" % mbs_sync[k],
+                                  {"kind": "unit-serial", "lines": [ref_lines[wi * nref], sref_lines[i]], "outputs": [want[:2000], rc[:2000]]})
+            elif smod[i] != rc or (rc.startswith("ok ") and tr and (tr.get("sub"), tr.get("maxq")) != (st.get("sub"), st.get("maxq"))):
+                corr_bad += 1
+                if corr_bad <= 3:
+                    ctx.violation("corr-sync:" + vlib.sha(smod_lines[i])[:12],
+                                  "model and real block processor differ when sync() is called before end_file: model=%s / %s real=%s" % (
+                                      smod[i][:300], sstate[i], sref[i][-300:]),
+                                  {"kind": "unit-model", "model_line": smod_lines[i], "harness_line": sref_lines[i], "model": smod[i], "real": rc},
+                                  found_input=False)
         # (a') the queue-free reference `packRef` evaluated on the implementation's behaviour
         if spec[wi] != want and want != "<no output>":
             corr_bad += 1
@@ -294,14 +324,15 @@ def unit_level(ctx, stats):
                 key = {"ovt": "blocks-overtaking", "fbovt": "fragment-block-overtakes-data-block", "spur": "spurious-wakeup-taken"}[k]
                 feat[key] = feat.get(key, 0) + 1
     stats["unit"] = {
-        "workloads": len(wls), "corpus": len(corpus), "threaded_runs": len(lines), "serial_runs": len(ref_lines), "model_runs": len(mod_lines), "reference_runs": len(spec_lines),
+        "workloads": len(wls), "corpus": len(corpus), "threaded_runs": len(lines), "serial_runs": len(ref_lines), "model_runs": len(mod_lines) + len(state_lines) + len(smod_lines) + len(sstate_lines), "reference_runs": len(spec_lines),
+        "serial_runs_with_sync_in_open_file": len(sref_lines), "threaded_runs_with_sync_in_open_file": sum(1 for l in lines if l.startswith("bps ")),
         "distinct_workload_x_schedule_x_backlog": len(set(lines)), "distinct_nontrivial_workloads": len(nontrivial),
         "distinct_completion_orders_total": sum(len(v) for v in orders.values()),
         "workloads_with_more_than_one_completion_order": sum(1 for v in orders.values() if len(v) > 1),
         "features": dict(sorted(feat.items())), "histogram": {k: dict(sorted(v.items())) for k, v in hist.items()},
         "property_violations": bad, "model_disagreements": corr_bad,
         "wall_s": {"harness": round(t1 - t0, 1), "model": round(t2 - t1, 1)}}
-    stats["evaluations"] += len(lines) + len(ref_lines) + len(mod_lines) + len(spec_lines) + len(state_lines)
+    stats["evaluations"] += len(lines) + len(ref_lines) + len(mod_lines) + len(spec_lines) + len(state_lines) + 3 * len(sref_lines)
     stats["disagreements"] += bad + corr_bad
     stats["samples"] += [lines[0][:300], lines[len(lines) // 2][:300], mod_lines[-1][:300]]
     return h, hs
@@ -506,8 +537,12 @@ def tool_level(ctx, stats):
                 ref = sha_file(ref_out)
                 runs += 1
                 if rc != 0:
-                    ctx.violation("tool-serial:" + vlib.sha(" ".join(cmd))[:12], "serial-pool build of the packer failed (rc=%s): %s" % (rc, err[-400:]),
-                                  {"kind": "tool", "cmd": cmd, "stderr": err[-2000:]}, found_input=False)
+                    bad += 1
+                    if bad <= 3:
+                        ctx.violation("tool-serial:" + vlib.sha(" ".join(cmd))[:12], "serial-pool build of the packer failed (rc=%s): %s" % (rc, err[-400:]),
+                                      {"kind": "tool", "seed": ctx.seed, "tier": ctx.tier, "case": ci, "flavour": flavour, "comp": comp,
+                                       "variant": "serial", "extra": [], "env": {"SOURCE_DATE_EPOCH": SDE}, "umask": 0o022, "cwd": str(ctx.scratch),
+                                       "prefix": [], "stderr": err[-2000:]})
                     continue
                 combos = []
                 n_this = (10 if quick else 32)
@@ -594,7 +629,8 @@ def tool_level(ctx, stats):
                     runs += 1
                 if shas[0] != shas[1] or shas[0][0] != 0:
                     bad += 1
-                    ctx.violation("tool-clock:%s:%s:%d" % (flavour, comp, ci), "with SOURCE_DATE_EPOCH unset the image depends on the wall clock "
+                    if bad <= 6:
+                      ctx.violation("tool-clock:%s:%s:%d" % (flavour, comp, ci), "with SOURCE_DATE_EPOCH unset the image depends on the wall clock "
                                   "(time 1 vs 2000000000): %s vs %s" % (shas[0], shas[1]),
                                   {"kind": "tool", "seed": ctx.seed, "tier": ctx.tier, "case": ci, "flavour": flavour, "comp": comp,
                                    "variant": "plain", "extra": ["-j", "3"], "env": {"LD_PRELOAD": "x", "C02_FAKE_TIME": "2000000000", "SOURCE_DATE_EPOCH": SDE},
@@ -622,7 +658,8 @@ def tool_level(ctx, stats):
                                            "stderr": err[-3000:]})
                         elif rc != 0 or got != ref:
                             bad += 1
-                            ctx.violation("tool-tsan:" + vlib.sha(" ".join(cmd))[:12],
+                            if bad <= 6:
+                              ctx.violation("tool-tsan:" + vlib.sha(" ".join(cmd))[:12],
                                           "TSan build: rc=%s, image %s the serial build's" % (rc, "equals" if got == ref else "differs from"),
                                           {"kind": "tool", "seed": ctx.seed, "tier": ctx.tier, "case": ci, "flavour": flavour, "comp": comp,
                                            "variant": "tsan", "extra": extra, "env": env, "umask": 0o022, "cwd": str(ctx.scratch), "prefix": [],
@@ -674,7 +711,8 @@ def sde_level(ctx, builds, stats):
         want = int(m.split()[0]) if m and m.split()[0].isdigit() else None
         if r.returncode != 0 or got != want:
             bad += 1
-            ctx.violation("sde:%s:%s" % (sde, dm), "super block modification_time with SOURCE_DATE_EPOCH=%r --defaults mtime=%r: real %r, model %r (rc=%d)" % (
+            if bad <= 3:
+              ctx.violation("sde:%s:%s" % (sde, dm), "super block modification_time with SOURCE_DATE_EPOCH=%r --defaults mtime=%r: real %r, model %r (rc=%d)" % (
                 sde, dm, got, want, r.returncode), {"kind": "sde", "sde": sde, "defaults_mtime": dm, "real": got, "model": m}, found_input=False)
     stats["sde_cases"] = len(cases)
     shutil.rmtree(d, ignore_errors=True)
